@@ -41,11 +41,14 @@ def main():
     pyenv = dict(ENV, PYTHONPATH=wt)
     # demo with / without
     rc1, out1 = sh("/venv/bin/python _seed/demo.py", cwd=wt, env=pyenv, timeout=3600)
-    sh("git stash -q", cwd=wt)
+    # (no git stash: the stash stack is shared by all worktrees of a repository)
+    sh(f"git diff -- ghedesigner > {dst}/.current.diff", cwd=wt)
+    sh("git checkout -- ghedesigner", cwd=wt)
     try:
         rc0, out0 = sh("/venv/bin/python _seed/demo.py", cwd=wt, env=pyenv, timeout=3600)
     finally:
-        sh("git stash pop -q", cwd=wt)
+        sh(f"git apply {dst}/.current.diff", cwd=wt)
+        os.remove(f"{dst}/.current.diff")
     meta["demo_with_change_exit"] = rc1
     meta["demo_without_change_exit"] = rc0
     meta["demo_with_change_tail"] = out1[-600:]
@@ -55,9 +58,21 @@ def main():
         rc, out = sh(f"/venv/bin/python -m pytest -q -p no:cacheprovider -o addopts= -n 4 {tests}", cwd=wt, env=pyenv, timeout=10800)
         meta["repo_tests"] = {"files": tests.split(), "exit": rc, "tail": out[-300:]}
         meta["ran"].append(f"pytest -n 4 {tests} in the worktree with the change")
+    meta["checks"] = {}
+    if "--via-worktree" in sys.argv:
+        # run the checks against the worktree that has the change applied (VF_REPO), leaving /repo untouched - used while a long
+        # background run is reading /repo; equivalent to `git -C /repo apply` because the checks import ghedesigner from VF_REPO
+        for p in props:
+            t0 = time.time()
+            rc, out = sh(f"./check {p} {tier}", cwd=VERIF, env=dict(os.environ, VF_REPO=wt))
+            lines = [ln for ln in out.splitlines() if ln.startswith("VIOLATION") or ln.startswith("  mechanism")]
+            meta["checks"][p] = {"tier": tier, "exit": rc, "caught": rc == 1, "wall_s": round(time.time() - t0, 1), "first_violations": [ln[:300] for ln in lines[:4]]}
+        meta["ran"].append(f"VF_REPO={wt} ./check {{{','.join(props)}}} {tier}  (worktree with the change applied; /repo untouched)")
+        json.dump(meta, open(os.path.join(dst, "meta.json"), "w"), indent=1)
+        print(json.dumps({k: meta[k] for k in ("id", "demo_with_change_exit", "demo_without_change_exit", "checks") if k in meta}, indent=1)[:1500])
+        return
     # my checks against the change, applied to /repo and always reverted
     st, _ = sh("git -C /repo status --short")
-    meta["checks"] = {}
     rc, out = sh(f"git -C /repo apply --check {dst}/patch.diff")
     if rc != 0:
         meta["apply_error"] = out[-300:]
